@@ -572,7 +572,8 @@ class Parser:
             return "\t", index
         if ch == "u":
             codepoint, index = self._decode_hex_char(value, index, token)
-            return self._string_from_codepoint(codepoint, token), index
+            # Control characters are fine when escaped, just not when raw.
+            return chr(codepoint), index
 
         raise JSONPathSyntaxError(
             f"unknown escape sequence at index {token.index + index - 1}",
